@@ -35,7 +35,7 @@ func (rw *Rewriter) expr(e Expr, slot string) Expr {
 	}
 	var out Expr
 	switch x := e.(type) {
-	case IntLit, BoolLit, StrLit, NilLit:
+	case IntLit, BoolLit, StrLit, NilLit, PaddedInt:
 		out = x
 	case VarRef:
 		out = VarRef{rw.name("var", x.Name)}
